@@ -12,6 +12,14 @@ CHECKS = {
   "note": "Trusts: Expected(script) as the reading of the property (400/408 checked for status+close only); the harness reference HTTP response parser; loopback timing assumptions (3 s silence = hang). Open deviations CrlfAfterBody and ReadAheadLost are attributed only when Dev={d} explains the log exactly.",
   "ref": "DESIGN.md section 5 C01",
  },
+ "C08": {
+  "bins": ["pool"], "specs": ["pool"],
+  "level": "model_checking",
+  "technique": "TLA+ model of ThreadPool/RecoveryThread (one action per hook point) model-checked by TLC for safety and liveness under weak fairness; TLC behaviours (witness traces, edge-covering paths over the dumped state graph, simulations) forced through the real pool by a gating hook callback; hook logs of randomised real runs validated by TLC with a trace specification",
+  "text": "TLC explores every interleaving of caller, N workers and recovery thread for N in 1..3, up to 4 tasks, every panic subset (incl. a respawned worker panicking again) and every lifecycle script start/execute*/[stop]/drop, with invariants (at most once, lock not held while running, no loss/dup, no premature exit, never poisoned) and liveness (each task eventually once, caller never blocks, all workers exit, panic isolated); 11 deviation configs and parallelism witnesses guard against vacuity. TLC behaviours are forced step by step through the real pool via gates at the hook points (every edge of the N=1/3-task and N=2/2-task graphs in thorough), a missing expected point after 1+4+15 s is a hang; randomised real runs (N up to 8, up to 200 tasks, panics, spins, sleeps, injected yields) and all forced runs are validated by Trace_ThreadPool.",
+  "note": "Trusts: std mpsc FIFO/disconnect semantics and Mutex exclusion; task bodies terminate; the hook call sites as the projection (add-only, cfg humphrey_verif); /proc/self/task for thread liveness; DESIGN 5a (execute only between start and stop; the recovery thread is not a worker). Restart scripts (start..stop start) and execute from several threads are not modelled.",
+  "ref": "DESIGN.md section 5 C08",
+ },
  "C09": {
   "bins": ["proxy"], "specs": ["proxy"],
   "level": "model_checking",
